@@ -28,10 +28,19 @@ Fixpoint item_toks (items : list bytes) : list token :=
   | s :: t => mk TString s :: mk TComma [44%N] :: item_toks t
   end.
 
+(* a string value is a quoted string or a multi-line ("text:") string *)
+Definition str_kind (s : bytes) : tkind := match s with 34%N :: _ => TString | _ => TMultiline end.
+
+Lemma str_kind_cases : forall s, str_kind s = TString \/ str_kind s = TMultiline.
+Proof.
+  intros [|c t]; [right; reflexivity|]. unfold str_kind.
+  destruct c as [|p]; [right; reflexivity|]. do 6 (destruct p as [p|p|]; try (right; reflexivity)). left. reflexivity.
+Qed.
+
 Definition arg_toks (a : argument) : list token :=
   match a with
   | (TyStringList, VList items) => mk TLeftBracket [91%N] :: item_toks items ++ [mk TRightBracket [93%N]]
-  | (TyString, VStr s) => [mk TString s]
+  | (TyString, VStr s) => [mk (str_kind s) s]
   | (TyNumber, VStr s) => [mk TNumber s]
   | (TyTag, VStr s) => [mk TTag s]
   | _ => []
@@ -108,7 +117,7 @@ Qed.
 
 Lemma process_scalar : forall T st f rest k ty v f1 slot,
   in_args st f rest -> p_expected st = None ->
-  ((k = TString /\ ty = TyString /\ utf8_valid v = true) \/ (k = TNumber /\ ty = TyNumber) \/ (k = TTag /\ ty = TyTag)) ->
+  (((k = TString \/ k = TMultiline) /\ ty = TyString /\ utf8_valid v = true) \/ (k = TNumber /\ ty = TyNumber) \/ (k = TTag /\ ty = TyTag)) ->
   check_next_arg f ty (VStr v) true true (p_loaded st) = CnaOk f1 slot ->
   process T st (mk k v) = MTrue (replace_top f1 st) /\ in_args (replace_top f1 st) f1 rest.
 Proof.
@@ -121,7 +130,9 @@ Proof.
   2:{ constructor; auto. unfold replace_top. rewrite Es. exact Hc. }
   assert (Hcmd : m_command T st (mk k v) = MTrue (replace_top f1 st)).
   { unfold m_command. rewrite Hc. unfold m_arguments, m_argument. unfold mk. cbn [t_kind t_val]. rewrite Es.
-    destruct Hk as [(-> & -> & Hu)|[(-> & ->)|(-> & ->)]].
+    destruct Hk as [([->| ->] & -> & Hu)|[(-> & ->)|(-> & ->)]].
+    - rewrite Hu. cbn [negb]. unfold lift_cna. rewrite E.
+      rewrite (cc_action (replace_top f1 st) f1 rest false Hrt Ha1). rewrite andb_false_r. reflexivity.
     - rewrite Hu. cbn [negb]. unfold lift_cna. rewrite E.
       rewrite (cc_action (replace_top f1 st) f1 rest false Hrt Ha1). rewrite andb_false_r. reflexivity.
     - unfold lift_cna. rewrite E.
@@ -129,7 +140,7 @@ Proof.
     - unfold lift_cna. rewrite E.
       rewrite (cc_action (replace_top f1 st) f1 rest false Hrt Ha1). rewrite andb_false_r. reflexivity. }
   unfold process. unfold mk at 1. cbn [t_kind]. rewrite He.
-  destruct Hk as [(-> & _)|[(-> & _)|(-> & _)]]; exact Hcmd.
+  destruct Hk as [([->| ->] & _)|[(-> & _)|(-> & _)]]; exact Hcmd.
 Qed.
 
 (* ------------------------------------------------------------------ one string-list argument *)
@@ -256,7 +267,7 @@ Lemma process_arg : forall T st f rest a f1 slot,
 Proof.
   intros T st f rest [ty v] f1 slot Hin He Hok E. cbn [fst snd] in E.
   assert (Hsc : forall k s, v = VStr s ->
-            ((k = TString /\ ty = TyString /\ utf8_valid s = true) \/ (k = TNumber /\ ty = TyNumber) \/ (k = TTag /\ ty = TyTag)) ->
+            (((k = TString \/ k = TMultiline) /\ ty = TyString /\ utf8_valid s = true) \/ (k = TNumber /\ ty = TyNumber) \/ (k = TTag /\ ty = TyTag)) ->
             exists st', steps T st [mk k s] = Some st' /\ in_args st' f1 rest /\ p_expected st' = None /\
                         p_brackets st' = p_brackets st /\ p_loaded st' = p_loaded st /\
                         p_hash st' = p_hash st /\ p_result st' = p_result st).
@@ -265,7 +276,7 @@ Proof.
     destruct Hin as [Es _ _ _]. unfold replace_top. rewrite Es. pcbn. auto. }
   destruct ty as [| | | | | |o]; destruct v as [x|l|n|ns]; cbn in Hok; try contradiction.
   - destruct (Hsc TTag x eq_refl) as (st' & A); [auto|]. exists st'. exact A.
-  - destruct (Hsc TString x eq_refl) as (st' & A); [auto|]. exists st'. exact A.
+  - destruct (Hsc (str_kind x) x eq_refl) as (st' & A); [left; split; [apply str_kind_cases|auto]|]. exists st'. exact A.
   - destruct Hok as (Hne & Hall). apply (process_list T st f rest l f1 slot Hin He Hne Hall E).
   - destruct (Hsc TNumber x eq_refl) as (st' & A); [auto|]. exists st'. exact A.
 Qed.
@@ -312,18 +323,27 @@ Definition can_start (st : pstate) : Prop :=
 
 (* name arg_1 ... arg_n ';' at top level: exactly one node is appended to the result, carrying exactly the
    maps computed by the interpreter; nothing else changes (the pending hash comments move to the node) *)
+(* a complete command has no tag waiting for its parameter *)
+Lemma complete_no_pending : forall f, iscomplete f None = true -> pending_param f = false.
+Proof.
+  intros f H. unfold iscomplete in H. unfold pending_param.
+  destruct (d_variable_args_nb (f_def f)); [discriminate|].
+  destruct (f_curarg f) as [ca|]; [|reflexivity]. destruct (a_extra ca) as [ex|]; [|reflexivity].
+  destruct (ex_valid_for ex); cbn in H; discriminate.
+Qed.
+
 Theorem action_accepted : forall T st name d args fN,
   can_start st ->
   get_command_instance T (p_loaded st) name = inl d ->
   d_type d = CAction -> twf d = true -> d_complete d = HNone -> d_must_follow d = None ->
   Forall arg_ok args ->
-  feed (new_frame d AtTop) args (p_loaded st) = FOk fN ->
+  feed (new_frame d AtTop) args (p_loaded st) = FOk fN -> pending_param fN = false ->
   steps T st (mk TIdentifier name :: flat_map arg_toks args ++ [mk TSemicolon [59%N]]) =
   Some (mkP [] CNone (p_curlist (match steps T (with_cstate CArgs (with_stack [new_frame d AtTop] st)) (flat_map arg_toks args) with Some s => s | None => st end))
             None (p_brackets st) (p_loaded st) []
             (p_result st ++ [Node d (f_args fN) (f_extra fN) [] (p_hash st)])).
 Proof.
-  intros T st name d args fN (Hc & He & Es) Hg Hty Htw Hcb Hmf Hall Hfeed.
+  intros T st name d args fN (Hc & He & Es) Hg Hty Htw Hcb Hmf Hall Hfeed Hpp.
   set (f0 := new_frame d AtTop).
   set (st1 := with_cstate CArgs (with_stack [f0] st)).
   assert (P0 : process T st (mk TIdentifier name) = MTrue st1).
@@ -364,7 +384,7 @@ Proof.
     { destruct E2 as [E2|(E2 & _)]; rewrite E2; [|reflexivity].
       f_equal. destruct st2; cbn in *; subst; reflexivity. }
     rewrite Hpass. unfold m_command. pcbn. rewrite Hc2. unfold m_arguments, m_argument. cbn [t_kind]. pcbn. rewrite Es2.
-    pcbn. rewrite Es2, Hnt, Hnch. cbn [orb].
+    pcbn. rewrite Es2, Hnt, Hnch. cbn [orb]. rewrite Hpp.
     set (st3 := with_cstate CNone (with_expected None st2)).
     assert (Es3 : p_stack st3 = [fN]) by (unfold st3; pcbn; exact Es2).
     rewrite (cc_semicolon st3 fN [] Es3 Hnt Hnch).
@@ -397,8 +417,8 @@ Proof.
   assert (Hsh : Forall (fun x => arg_shape_ok x = true) args).
   { apply Forall_forall. intros a Ha. rewrite Forall_forall in Hall. apply arg_ok_spec_shape. apply Hall. exact Ha. }
   pose proof (argcheck_correct_gen d AtTop (p_loaded st) args Hwf Hfa Hsh) as C.
-  unfold corr_stmt in C. rewrite Hleg in C. destruct C as (fN & Hfeed & _ & <- & <-).
-  eexists. apply (action_accepted T st name d args fN Hs Hg Hty Htw Hcb Hmf Hall Hfeed).
+  unfold corr_stmt in C. rewrite Hleg in C. destruct C as (fN & Hfeed & Hcomp & <- & <-).
+  eexists. apply (action_accepted T st name d args fN Hs Hg Hty Htw Hcb Hmf Hall Hfeed (complete_no_pending fN Hcomp)).
 Qed.
 
 (* the machine does not look at token positions *)
